@@ -13,6 +13,7 @@ pub fn f3_commit<const M: usize, const K: usize, const SIZE: usize, const ALIGN:
     unsafe {
         let mask: u8 = kani::any();
         pool_reset(mask);
+        super::f6::CHUNK_ALIGN_OVERRIDE = 16;
         DISPLACE = DISP;
         // pre-state: chunk-less, or one hand-made registered chunk (448 usable) in slot 0
         // finger of the current chunk: CONCRETE per instance (a symbolic finger makes the fast-path
@@ -173,6 +174,7 @@ f3!(f3_commit_m1_k0_s1_a1_d0_l10, 1, 0, 1, 1, 0, 0, 14, 10);
 pub fn f3_new_chunk<const M: usize, const SIZE: usize, const ALIGN: usize, const DISP: u8>() {
     unsafe {
         pool_reset(0);
+        super::f6::CHUNK_ALIGN_OVERRIDE = 16;
         DISPLACE = DISP;
         let layout = Layout::from_size_align(SIZE, ALIGN).unwrap();
         let d = Bump::<M>::new_chunk_memory_details(None, layout).unwrap();
